@@ -240,6 +240,27 @@ func StSet(ctx context.Context, store string, key, val []byte) { nativeStSet(ctx
 func StDel(ctx context.Context, store string, key []byte)      { nativeStSet(ctx, store, key, nil) }
 
 // StSnapshot records the current contents of a store; StEqual / StEqualExcept compare against it.
+// StGetInt / StSetInt: a store cell holding a non-negative integer (absent = zero, otherwise the canonical decimal of a
+// positive integer). The engine reads and writes such cells without branching.
+func StGetInt(ctx context.Context, store string, key []byte) sdkmath.Int {
+	bz := nativeStGet(ctx, store, key)
+	if len(bz) == 0 {
+		return sdkmath.ZeroInt()
+	}
+	v, ok := sdkmath.NewIntFromString(string(bz))
+	if !ok || !v.IsPositive() {
+		panic("verif.StGetInt: cell does not hold a positive decimal: " + string(bz))
+	}
+	return v
+}
+func StSetInt(ctx context.Context, store string, key []byte, v sdkmath.Int) {
+	if v.IsZero() {
+		nativeStSet(ctx, store, key, nil)
+		return
+	}
+	nativeStSet(ctx, store, key, []byte(v.String()))
+}
+
 func StSnapshot(ctx context.Context, store string) int { return nativeSnapshot(ctx, store) }
 func StEqual(ctx context.Context, store string, snap int) bool {
 	return nativeEqualExcept(ctx, store, snap, nil)
@@ -309,3 +330,9 @@ func SdkInt(name string) sdkmath.Int {
 	}
 	return v
 }
+
+// AbstractIdentifiers(true): the engine treats ibc-go's identifier syntax rule (24-host defaultIdentifierValidator) on
+// symbolic strings as an uninterpreted predicate implying only non-blank, separator-free and the length range;
+// counterexamples are re-checked against the real rule. Sound for properties that hold whatever the rule accepts.
+// In the same mode strings.TrimSpace is fully uninterpreted except for its emptiness test.
+func AbstractIdentifiers(on bool) {}
